@@ -380,17 +380,28 @@ func drawC14Veneers(rt *rapid.T, sc schemaCase, multi *c14Multi) []string {
 type c14Multi struct {
 	Def   string
 	Field string
+	// Plain: no constants at all: the object keeps its builder and gets a second
+	// one, named so that it sorts first, that lacks the option of Field; the
+	// converter has nothing to choose by and must keep to the first registered
+	// builder (the complete one)
+	Plain bool
 	// Shared: the object also has a schema constant, written first by both
 	// constructors
 	Shared bool
 }
 
 func (mb c14Multi) builderRules() string {
+	if mb.Plain {
+		return fmt.Sprintf("  - duplicate: {by_name: %s, as: A%sLite, exclude_options: [%s]}\n", mb.Def, mb.Def, mb.Field)
+	}
 	return fmt.Sprintf("  - duplicate: {by_name: %s, as: %sFirst}\n  - duplicate: {by_name: %s, as: %sSecond}\n  - omit: {by_name: %s}\n  - initialize: {by_name: %sFirst, set: [{property: %s, value: first}]}\n  - initialize: {by_name: %sSecond, set: [{property: %s, value: second}]}\n",
 		mb.Def, mb.Def, mb.Def, mb.Def, mb.Def, mb.Def, mb.Field, mb.Def, mb.Field)
 }
 
 func (mb c14Multi) optionRules() string {
+	if mb.Plain {
+		return ""
+	}
 	return fmt.Sprintf("  - omit: {by_builder: %sFirst.%s}\n  - omit: {by_builder: %sSecond.%s}\n", mb.Def, mb.Field, mb.Def, mb.Field)
 }
 
@@ -442,6 +453,42 @@ func drawC14Multi(rt *rapid.T, sc *schemaCase) *c14Multi {
 		return nil
 	}
 	mb := &c14Multi{Def: rapid.SampledFrom(candidates).Draw(rt, "multidef"), Field: "queryMode", Shared: rapid.Bool().Draw(rt, "multishared")}
+	if rapid.IntRange(0, 2).Draw(rt, "multiplain") == 0 {
+		// an optional plain scalar field of the object, present in every value
+		d := m.Def(mb.Def)
+		var scalars []string
+		hasConstant := false
+		for _, f := range d.Type.Fields {
+			rtf := m.Resolve(f.Type)
+			if f.Type.Const != nil || rtf.Const != nil || (rtf.Kind == smodel.KEnum && len(rtf.Members) < 2) {
+				// with constants both builders carry the same guards: which one
+				// the converter takes is then the veneer author's ambiguity
+				hasConstant = true
+			}
+		}
+		for _, f := range d.Type.Fields {
+			if hasConstant {
+				break
+			}
+			k := f.Type.Kind
+			if !f.Required && f.Type.Const == nil && !f.Type.Nullable && f.Type.Default == nil && (k == smodel.KString || k == smodel.KInt || k == smodel.KBool) && len(smodel.Violations(f.Type)) == 0 {
+				scalars = append(scalars, f.Name)
+			}
+		}
+		if len(scalars) > 0 {
+			mb.Plain, mb.Shared = true, false
+			mb.Field = rapid.SampledFrom(scalars).Draw(rt, "multiplainfield")
+			for i, doc := range sc.Docs {
+				v, err := smodel.ParseJSON(doc.JSON)
+				if err != nil || m.Def(doc.Def) == nil {
+					continue
+				}
+				c14PatchMulti(rt, m, smodel.T{Kind: smodel.KRef, Ref: doc.Def}, v, mb, 0)
+				sc.Docs[i].JSON = string(rawOf(v))
+			}
+			return mb
+		}
+	}
 	for i := range m.Defs {
 		if m.Defs[i].Name != mb.Def {
 			continue
@@ -483,7 +530,20 @@ func c14PatchMulti(rt *rapid.T, m *smodel.Model, t smodel.T, v any, mb *c14Multi
 		if !ok {
 			return
 		}
-		if isTarget {
+		if isTarget && mb.Plain {
+			for _, f := range rt2.Fields {
+				if f.Name == mb.Field {
+					switch f.Type.Kind {
+					case smodel.KString:
+						obj[mb.Field] = "kept"
+					case smodel.KInt:
+						obj[mb.Field] = 7
+					default:
+						obj[mb.Field] = true
+					}
+				}
+			}
+		} else if isTarget {
 			obj[mb.Field] = rapid.SampledFrom([]string{"first", "second"}).Draw(rt, "multivalue")
 			if mb.Shared {
 				obj["datasourceKind"] = "prom"
